@@ -319,6 +319,10 @@ def _dict_lookup(d, k):
     e = _ex.cur()
     if k.lo == k.hi:
         return d[k.lo]
+    if any(type(x) is SymInt for x in d.keys()):
+        # keys that are solver variables themselves (each already pinned to one value when it was hashed on
+        # insertion): python's own look-up -- hash(k) forks on k's value, == decides against the stored keys
+        return d[k]
     keys = [x for x in d.keys() if _isinstance(x, _int) and not _isinstance(x, bool) and k.lo <= x <= k.hi]
     if e.abstract_dicts and _len(keys) > 16 and all(_isinstance(d[x], str) for x in keys):
         # big text table: fork on hit / miss only; a hit yields an opaque string (over-approximation
